@@ -84,6 +84,19 @@ def gen_cases(tier, seed):
                       "pattern": rnd.choice(["random", "limits", "labels", "big"]),
                       "layout": rnd.choice(["C", "F"]), "vseed": rnd.randrange(2 ** 32),
                       "large": True})
+    # directed: chunks of more than 2^20 voxels (checked against a vectorised exact
+    # integer reference), e.g. depths / slice sizes that are not powers of two
+    huge_shapes = [[1, 130, 129, 129], [1, 45, 200, 245], [2, 97, 111, 101],
+                   [1, 128, 128, 128], [1, 131, 100, 90], [3, 71, 75, 67]]
+    for k, shape in enumerate(huge_shapes if tier == "quick" else huge_shapes * 4):
+        cases.append({"method": ["average", "average_outside", "stride"][k % 3]
+                      if k >= len(huge_shapes) else "average",
+                      "dtype": rnd.choice(["uint8", "uint16", "uint32"]),
+                      "shape": shape,
+                      "factors": [2, 2, 2] if k < len(huge_shapes) else
+                      rnd.choice([[2, 2, 2], [1, 1, 2], [2, 1, 2], [2, 2, 1]]),
+                      "outside": 3.0, "pattern": "random", "layout": "C",
+                      "vseed": rnd.randrange(2 ** 32), "huge": True})
     # unsupported factor triples
     for method, factors in [("average", [3, 1, 1]), ("average", [1, 4, 2]),
                             ("average", [0, 1, 1]), ("average", [2, 2]),
@@ -131,7 +144,22 @@ def _values(case, count):
     return [rnd.choice(pool) for _ in range(count)]
 
 
+_SHARED = {}
+
+
 def _downscaler(case):
+    """Half of the cases reuse one downscaler object per (method, outside value) for the
+    whole life of the worker, as the pyramid code does for a whole dataset: state carried
+    over from earlier calls (other shapes, other data types) must not matter."""
+    if case["vseed"] % 2 == 0:
+        key = (case["method"], case["outside"])
+        if key not in _SHARED:
+            _SHARED[key] = _fresh_downscaler(case)
+        return _SHARED[key]
+    return _fresh_downscaler(case)
+
+
+def _fresh_downscaler(case):
     from neuroglancer_scripts import downscaling
     m = case["method"]
     if m == "average":
@@ -163,7 +191,63 @@ def _ulp32(x):
     return 2.0 ** (math.frexp(x)[1] - 1 - 23)
 
 
+def run_huge(case):
+    """> 2^20 voxels: exact reference with int64 arithmetic (integer data types)."""
+    import numpy as np
+    g = np.random.default_rng(case["vseed"])
+    dt = np.dtype(case["dtype"])
+    shape = case["shape"]
+    hi = min(np.iinfo(dt).max, 2 ** 31)
+    arr = g.integers(0, hi, size=shape, dtype=np.int64, endpoint=True).astype(dt)
+    dx_, dy_, dz_ = case["factors"]
+    m = case["method"]
+    obs = {"methods": {m: 1}, "dtypes": {case["dtype"]: 1}, "voxels": 0, "huge_arrays": 1}
+    ds = _downscaler(dict(case, outside=case["outside"] if m == "average_outside" else None))
+    try:
+        out = np.asarray(ds.downscale(arr, (dx_, dy_, dz_)))
+    except Exception as exc:  # noqa: BLE001
+        return {"violations": [{"kind": "downscale-raised", "detail":
+                                f"{m} {case['dtype']} shape {shape}: {type(exc).__name__}: "
+                                f"{exc}"}], "obs": obs}
+    want_shape = dsx.out_shape(tuple(shape), [dx_, dy_, dz_])
+    v = []
+    if tuple(out.shape) != want_shape or out.dtype != dt:
+        return {"violations": [{"kind": "wrong-shape-or-dtype", "detail":
+                                f"{m} shape {shape} factors {case['factors']}: got "
+                                f"{out.shape} {out.dtype}, want {want_shape} {dt}"}],
+                "obs": obs}
+    a = arr.astype(np.int64)
+    if m == "stride":
+        want = a[:, ::dz_, ::dy_, ::dx_]
+    else:
+        # complete overhanging blocks (edge replication or the outside value), then sum
+        pads = [(0, 0), (0, -shape[1] % dz_), (0, -shape[2] % dy_), (0, -shape[3] % dx_)]
+        if m == "average":
+            a = np.pad(a, pads, mode="edge")
+        else:
+            a = np.pad(a, pads, mode="constant", constant_values=int(case["outside"]))
+        c, z, y, x = a.shape
+        s_ = a.reshape(c, z // dz_, dz_, y // dy_, dy_, x // dx_, dx_).sum(axis=(2, 4, 6))
+        n = dz_ * dy_ * dx_
+        q, r = np.divmod(s_, n)
+        want = q + ((2 * r > n) | ((2 * r == n) & (q % 2 == 1)))
+        want = np.clip(want, 0, np.iinfo(dt).max)
+    obs["voxels"] = int(want.size)
+    if not np.array_equal(out.astype(np.int64), want):
+        bad = np.argwhere(out.astype(np.int64) != want)
+        i = tuple(int(q_) for q_ in bad[0])
+        v.append({"kind": "wrong-value", "detail":
+                  f"{m} {case['dtype']} shape {shape} factors {case['factors']}: "
+                  f"{len(bad)} of {want.size} voxels differ, e.g. output {i} = {out[i]}, "
+                  f"exact reference {want[i]}"})
+    return {"violations": v, "obs": obs, "sigs": [f"huge|{m}|{case['dtype']}|{shape}|"
+                                                  f"{case['factors']}"],
+            "sample": {k: case[k] for k in ("method", "dtype", "shape", "factors")}}
+
+
 def run_case(case):
+    if case.get("huge"):
+        return run_huge(case)
     import numpy as np
     shape = case["shape"]
     count = shape[0] * shape[1] * shape[2] * shape[3]
@@ -296,4 +380,5 @@ def gates(obs, tier):
         "overhanging_blocks_seen": obs.get("overhang_blocks", 0) > 50,
         "unsupported_probes_run": obs.get("unsupported_probes", 0) >= 10,
         "arrays_beyond_64_per_axis": obs.get("large_arrays", 0) > 0,
+        "arrays_beyond_2_20_voxels": obs.get("huge_arrays", 0) > 0,
     }
